@@ -53,6 +53,7 @@ void EGLPNUM_TYPENAME_ILLsvector_init (
 	EGLPNUM_TYPENAME_svector * s)
 {
 	s->nzcnt = 0;
+	s->size = 0;
 	s->indx = 0;
 	s->coef = 0;
 }
@@ -64,6 +65,7 @@ void EGLPNUM_TYPENAME_ILLsvector_free (
 
 	EGLPNUM_TYPENAME_EGlpNumFreeArray (s->coef);
 	s->nzcnt = 0;
+	s->size = 0;
 }
 
 int EGLPNUM_TYPENAME_ILLsvector_alloc (
